@@ -50,11 +50,12 @@ _UID = [0]
 class Arr:
     """an array of the library: its dimensions, its per-handle flags, the operands it records and whether it carries a derivative;
     the value buffer is abstracted to its length.  `uid` names the node (clones share it)"""
-    __slots__ = ("dims", "tracked", "keep", "children", "bop", "uid")
+    __slots__ = ("dims", "tracked", "keep", "children", "bop", "uid", "vals")
 
     def __init__(self, dims, tracked=False, uid=None):
         self.dims, self.tracked, self.keep = list(dims), tracked, tracked
         self.children, self.bop = [], False
+        self.vals = None        # provenance mode: one provenance set per element
         if uid is None:
             _UID[0] += 1
             uid = _UID[0]
@@ -63,6 +64,7 @@ class Arr:
     def copy(self):
         o = Arr(self.dims, self.tracked, self.uid)
         o.keep, o.children, o.bop = self.keep, list(self.children), self.bop
+        o.vals = self.vals      # the buffer is shared between clones (and never written)
         return o
 
     def reach(self, seen=None):
@@ -80,6 +82,31 @@ class Arr:
 
     def __repr__(self):
         return "Arr%s" % (self.dims,)
+
+
+class PF:
+    """provenance of one number: the set of input elements it was computed from"""
+    __slots__ = ("s",)
+
+    def __init__(self, s):
+        self.s = s
+
+    def __repr__(self):
+        return "PF(%s)" % sorted(self.s)
+
+
+def pf_join(*vals):
+    """join of the provenance of some numbers; UNK as soon as one of them has none"""
+    out = frozenset()
+    for v in vals:
+        v = deref(v)
+        if isinstance(v, PF):
+            out = out | v.s
+        elif isinstance(v, (int, float)) and not isinstance(v, bool):
+            continue
+        else:
+            return UNK
+    return PF(out)
 
 
 class FVec:
@@ -131,6 +158,10 @@ class SRef(Ref):
 
 def cell_ref(box, i):
     return SRef(box, i) if isinstance(box, SliceList) else Ref(box, i)
+
+
+class Cycle(list):
+    """`iter.cycle()`: an endless repetition; only `take(n)` and being zipped with a finite iterator give it an end"""
 
 
 class VarCell:
@@ -217,9 +248,10 @@ SELF_RETURNING = ()
 
 
 class Interp:
-    def __init__(self, facts, budget=60000, memo=None):
+    def __init__(self, facts, budget=60000, memo=None, prov=False):
         self.facts = facts
         self.memo = memo
+        self.prov = prov        # provenance mode: value buffers are lists of provenance sets and the kernels are entered
         self.budget = budget
         self.steps = 0
         self.depth = 0
@@ -273,17 +305,22 @@ class Interp:
 
     def apply(self, f, args):
         f = deref(f)
+        if isinstance(f, tuple) and f and f[0] == "localfn":
+            return self.call_fn(f[1], list(args))
+        if isinstance(f, tuple) and f and f[0] == "fnitem":
+            return pf_join(*args) if self.prov else UNK        # a function of numbers (Float::add, f64::max, ..): joins the provenance of its arguments
         if not isinstance(f, Clo):
             return UNK
         cb = f.body
         ps = [p for p in self.facts.params(cb) if p.get("pat")]
-        # a closure over element data (value slices, floats) is a kernel: never entered
-        for p in ps:
-            t = p.get("ty") or ""
-            if any(x in t for x in FLOATY):
+        # a closure over element data (value slices, floats) is a kernel: never entered in the shape slice
+        if not self.prov:
+            for p in ps:
+                t = p.get("ty") or ""
+                if any(x in t for x in FLOATY):
+                    return UNK
+            if (cb.get("closure_output") or "") in FLOATY:
                 return UNK
-        if (cb.get("closure_output") or "") in FLOATY:
-            return UNK
         env = Env(f.env)
         if len(ps) == 1 and len(args) != 1:
             self.bind(ps[0]["pat"], tuple(args), env)
@@ -438,7 +475,10 @@ class Interp:
                 elif p.get("name") == "children":
                     base.children = [deref(x) for x in dv_] if isinstance(dv_, list) else [UNK]
                 elif p.get("name") == "backward_op":
-                    base.bop = isinstance(dv_, Some) or (dv_ is not NONE and dv_ is not UNK)
+                    if isinstance(dv_, Some) and (isinstance(deref(dv_.v), Clo) or (isinstance(deref(dv_.v), tuple) and deref(dv_.v) and deref(dv_.v)[0] == "localfn")):
+                        base.bop = deref(dv_.v)
+                    else:
+                        base.bop = isinstance(dv_, Some) or (dv_ is not NONE and dv_ is not UNK)
                 return
             if base is UNK:
                 return
@@ -468,6 +508,8 @@ class Interp:
                 return v
             if isinstance(v, int) and (e.get("ty") or "") not in FLOATY:
                 return v
+            if self.prov and isinstance(v, (int, float)) and (e.get("ty") or "") in FLOATY:
+                return PF(frozenset())
             return UNK
         if k in ("VarRef", "UpvarRef"):
             v = env.get(e["v"])
@@ -509,6 +551,8 @@ class Interp:
                 return not v
             if e["op"] == "Neg" and isinstance(v, int):
                 return -v
+            if e["op"] == "Neg" and isinstance(v, PF):
+                return v
             return UNK
         if k == "LogicalOp":
             l = self.truth(e["l"], env)
@@ -621,6 +665,8 @@ class Interp:
                 nm = e.get("name")
                 if nm == "dimensions":
                     return base.dims
+                if nm == "values" and self.prov and isinstance(base.vals, list):
+                    return base.vals
                 if nm == "values":
                     n_ = 1
                     for d in base.dims:
@@ -648,6 +694,8 @@ class Interp:
             v = deref(self.ev(e["e"], env))
             if isinstance(v, int) and not isinstance(v, bool) and (e.get("ty") or "") not in FLOATY:
                 return v
+            if self.prov and (e.get("ty") or "") in FLOATY:
+                return v if isinstance(v, PF) else (PF(frozenset()) if isinstance(v, int) else UNK)      # a count turned into a number carries no element's provenance
             return UNK
         if k == "Closure":
             cb = self.facts.body(e["closure"])
@@ -673,6 +721,9 @@ class Interp:
                         out = base.copy()
                         out.dims = list(dims)
                     for f_ in e.get("fields") or []:
+                        if f_.get("name") == "values" and self.prov:
+                            vv_ = deref(self.ev(f_["e"], env))
+                            out.vals = vv_ if isinstance(vv_, list) else None
                         if f_.get("name") == "children":
                             cv = deref(self.ev(f_["e"], env))
                             out.children = [deref(x) for x in cv] if isinstance(cv, list) else [UNK]
@@ -688,6 +739,14 @@ class Interp:
         if k == "Call":
             return self.call(e, env)
         if k == "FnItem":
+            fn_ = e.get("fn") or {}
+            pth = fn_.get("path") or ""
+            if fn_.get("resolved_local") or fn_.get("local"):
+                lb = self.facts.body(fn_.get("resolved") or pth)
+                if lb is not None and lb.get("thir"):
+                    return ("localfn", lb)
+            if self.prov and (pth.startswith("core::ops::arith::") or ("<impl %s>" % self.fl) in pth or pth.startswith("core::cmp::")):
+                return ("fnitem", pth)
             return UNK
         if k == "Let":
             raise Abort("let expression")
@@ -743,6 +802,8 @@ class Interp:
 
     def items(self, it):
         it = deref(it)
+        if isinstance(it, Cycle):
+            raise Abort("an endless iterator is consumed")
         if isinstance(it, list):
             return it
         if isinstance(it, tuple) and it and it[0] == "range":
@@ -786,6 +847,8 @@ class Interp:
         return UNK
 
     def arith(self, op, l, r, node):
+        if isinstance(l, PF) or isinstance(r, PF):
+            return pf_join(l, r) if op in ("Add", "Sub", "Mul", "Div", "Rem") else UNK
         if l is UNK or r is UNK or not isinstance(l, int) or not isinstance(r, int) or isinstance(l, bool) or isinstance(r, bool):
             return UNK
         if op == "Add":
@@ -825,7 +888,7 @@ class Interp:
             return (l and r) if op == "BitAnd" else (l or r)
         t = e.get("ty") or ""
         if t in FLOATY:
-            return UNK
+            return pf_join(l, r) if (self.prov and op in ("Add", "Sub", "Mul", "Div", "Rem")) else UNK
         return self.arith(op, l, r, e)
 
     def index(self, base, i, node):
@@ -884,6 +947,8 @@ class Interp:
             return a0.dims if isinstance(a0, Arr) else UNK
         if r in ("corgi::array::Array::values",):
             a0 = deref(self.ev(args[0], env))
+            if isinstance(a0, Arr) and self.prov and isinstance(a0.vals, list):
+                return a0.vals
             if isinstance(a0, Arr):
                 n_ = 1
                 for d in a0.dims:
@@ -930,14 +995,21 @@ class Interp:
 
     def std(self, e, c, tail, args, env):
         A = lambda i: deref(self.ev(args[i], env))
+        # ---- functions of numbers (provenance mode): the result is computed from all of its arguments
+        if self.prov and (("<impl %s>" % self.fl) in c) and args:
+            return pf_join(*[A(i) for i in range(len(args))])
         # ---- constructors of collections
         if c in ("alloc::vec::Vec::<T>::new", "alloc::vec::Vec::<T>::with_capacity"):
             for a in args:
                 self.ev(a, env)
+            if self.prov:
+                return []
             return FVec(0) if any(x in (e.get("ty") or "") for x in FLOATY) and "Array" not in (e.get("ty") or "") else []
         if c == "alloc::vec::from_elem" and len(args) == 2:
             x, n = A(0), A(1)
             if isinstance(n, int):
+                if self.prov and isinstance(x, PF):
+                    return [PF(x.s) for _ in range(n)]
                 if x is UNK or any(t in (strip(args[0]).get("ty") or "") for t in FLOATY):
                     return FVec(n)
                 return [x] * n
@@ -1089,6 +1161,26 @@ class Interp:
                 i = A(1)
                 if isinstance(v, list) and isinstance(i, int):
                     return Some(v[i]) if 0 <= i < len(v) else NONE
+                return UNK
+            if tail in ("windows", "chunks", "chunks_exact", "chunks_mut", "chunks_exact_mut", "rchunks") and len(args) == 2 and isinstance(v, FVec):
+                n = A(1)
+                if isinstance(n, int) and n > 0 and v.n is not None:
+                    if tail == "windows":
+                        return [FVec(n)] * max(0, v.n - n + 1)
+                    full, rest = divmod(v.n, n)
+                    return [FVec(n)] * full + ([FVec(rest)] if rest and "exact" not in tail else [])
+                if n == 0:
+                    raise Panic(e)
+                return UNK
+            if tail in ("chunks_mut", "chunks_exact_mut") and len(args) == 2 and isinstance(v, list):
+                n = A(1)
+                if isinstance(n, int) and n > 0:
+                    out = [SliceList(v[i:i + n], v, i) for i in range(0, len(v), n)]
+                    if tail == "chunks_exact_mut" and out and len(out[-1]) != n:
+                        out.pop()
+                    return out
+                if n == 0:
+                    raise Panic(e)
                 return UNK
             if tail in ("windows", "chunks", "chunks_exact") and len(args) == 2:
                 n = A(1)
@@ -1242,6 +1334,17 @@ class Interp:
             return UNK
         if c in ("core::ops::arith::Add::add", "core::ops::arith::Sub::sub", "core::ops::arith::Mul::mul", "core::ops::arith::Div::div", "core::ops::arith::Rem::rem") and len(args) == 2:
             return self.arith(tail.capitalize(), A(0), A(1), e)
+        if c == "core::ops::arith::Neg::neg" and len(args) == 1:
+            v_ = A(0)
+            return v_ if isinstance(v_, PF) else ((-v_) if isinstance(v_, int) and not isinstance(v_, bool) else UNK)
+        if c in ("core::ops::arith::AddAssign::add_assign", "core::ops::arith::SubAssign::sub_assign", "core::ops::arith::MulAssign::mul_assign", "core::ops::arith::DivAssign::div_assign") and len(args) == 2:
+            tgt = self.ev(args[0], env, want_ref=True)
+            cur, rhs = deref(tgt), A(1)
+            newv = self.arith(tail.split("_")[0].capitalize(), cur, rhs, e)
+            if isinstance(tgt, (Ref, VarCell)):
+                tgt.set(newv)
+                return ()
+            raise Abort("compound assignment through %s" % type(tgt).__name__)
         if c == "core::ops::bit::Not::not" and args:
             v = A(0)
             return (not v) if isinstance(v, bool) else UNK
@@ -1308,6 +1411,15 @@ class Interp:
             if tail == "for_each":
                 return ()
             return UNK
+        if isinstance(src, Cycle):
+            if tail == "take" and len(args) == 2:
+                n = deref(self.ev(args[1], env))
+                if isinstance(n, int):
+                    return [src[i % len(src)] for i in range(n)]
+                return UNK
+            if tail in ("copied", "cloned", "by_ref"):
+                return src
+            raise Abort("an endless iterator is used by %s" % tail)
         items = self.items(src)
         if items is None:
             if tail == "for_each":
@@ -1319,6 +1431,8 @@ class Interp:
             return [(i, x) for i, x in enumerate(items)]
         if tail == "zip" and len(args) == 2:
             o = deref(self.ev(args[1], env))
+            if isinstance(o, Cycle):
+                return [(x, o[i % len(o)]) for i, x in enumerate(items)]
             oi = self.items(o)
             if oi is None:
                 return UNK
@@ -1424,6 +1538,10 @@ class Interp:
             return acc
         if tail in ("product", "sum"):
             vals = [deref(x) for x in items]
+            if self.prov and vals and all(isinstance(x, PF) for x in vals):
+                return pf_join(*vals)
+            if self.prov and not vals and any(t in (e.get("ty") or "") for t in FLOATY):
+                return PF(frozenset())
             if any(not isinstance(x, int) or isinstance(x, bool) for x in vals):
                 return UNK
             out = 1 if tail == "product" else 0
@@ -1458,7 +1576,9 @@ class Interp:
         if tail in ("unzip",):
             return ([x[0] for x in items], [x[1] for x in items])
         if tail in ("cycle",):
-            raise Abort("cycle")
+            if not items:
+                raise Abort("cycle of an empty iterator")
+            return Cycle(items)
         if tail in ("flatten",):
             out = []
             for x in items:
@@ -1477,7 +1597,7 @@ def _freeze(v):
     if isinstance(v, bool) or isinstance(v, int) or isinstance(v, str):
         return v
     if isinstance(v, Arr):
-        return ("A", tuple(_freeze(d) for d in v.dims), v.tracked, v.keep, v.uid, v.bop, tuple(_freeze(c_) for c_ in v.children))
+        return ("A", tuple(_freeze(d) for d in v.dims), v.tracked, v.keep, v.uid, bool(v.bop), tuple(_freeze(c_) for c_ in v.children))
     if isinstance(v, FVec):
         return ("F", v.n)
     if isinstance(v, list):
@@ -1522,8 +1642,99 @@ def _thaw(v):
 _MEMO = {}
 
 
-def run(facts, body, args, budget=60000):
+def backward_provenance(facts, result, budget=400000):
+    """the recorded derivative closures of `result`'s graph applied to an adjoint whose element q has provenance {('D', q)}, pushed down to the
+    operands (every delivered slot reduced by the library's own flatten_to, contributions to one node joined): -> {operand uid: (list of
+    provenance sets, dimensions) | 'unknown'}.  The scheduling of the engine (counters, order) is not modelled - other rules read it."""
+    it = Interp(facts, budget, None, prov=True)
+    ft = [b for b in facts.fns() if b.get("name") == "flatten_to" and b.get("impl_self") == ARRAY and b.get("impl_trait_def") is None]
+    if len(ft) != 1:
+        raise Abort("flatten_to not found")
+    seed = Arr(result.dims)
+    n_ = 1
+    for d in result.dims:
+        n_ *= d
+    seed.vals = [PF(frozenset({("D", q)})) for q in range(n_)]
+    pending = {id(result): (result, seed)}
+    order = []
+    seen = set()
+
+    def visit(a):
+        if id(a) in seen or not isinstance(a, Arr):
+            return
+        seen.add(id(a))
+        for ch in a.children:
+            visit(ch)
+        order.append(a)
+    visit(result)
+    out = {}
+    for node in reversed(order):
+        ent = pending.get(id(node))
+        if ent is None:
+            continue
+        _, delta = ent
+        if node.children and not (isinstance(node.bop, Clo) or (isinstance(node.bop, tuple) and node.bop and node.bop[0] == "localfn")):
+            raise Abort("a node of the graph records operands but its derivative is not a closure or function the analysis can enter")
+        if not node.children:
+            dv = delta.vals
+            if not isinstance(dv, list) or any(not isinstance(deref(x), PF) for x in dv):
+                out[node.uid] = "unknown"
+            else:
+                prev = out.get(node.uid)
+                cur = [deref(x).s for x in dv]
+                if isinstance(prev, tuple) and len(prev[0]) == len(cur):
+                    cur = [a_ | b_ for a_, b_ in zip(prev[0], cur)]
+                out[node.uid] = (cur, list(delta.dims))
+            continue
+        kids = list(node.children)
+        flags = [bool(isinstance(k_, Arr) and k_.tracked) for k_ in kids]
+        was = []
+        for k_ in kids:
+            if isinstance(k_, Arr):
+                was.append(k_.tracked)
+                k_.tracked = False      # the engine un-tracks the operands while their derivative runs
+        try:
+            slots = deref(it.apply(node.bop, [kids, flags, delta]))
+        finally:
+            for k_, w_ in zip([k for k in kids if isinstance(k, Arr)], was):
+                k_.tracked = w_
+        if not isinstance(slots, list):
+            raise Abort("the derivative did not return a slot vector")
+        for k_, sl in zip(kids, slots):
+            sl = deref(sl)
+            if sl is NONE or not isinstance(k_, Arr):
+                continue
+            if not isinstance(sl, Some) or not isinstance(deref(sl.v), Arr):
+                raise Abort("a slot of the derivative is not an array")
+            g = deref(sl.v)
+            red = deref(it.call_fn(ft[0], [g, list(k_.dims)]))
+            if not isinstance(red, Arr):
+                raise Abort("flatten_to did not return an array")
+            prev = pending.get(id(k_))
+            if prev is not None and isinstance(prev[1].vals, list) and isinstance(red.vals, list) and len(prev[1].vals) == len(red.vals):
+                merged = Arr(red.dims)
+                merged.vals = [pf_join(a_, b_) for a_, b_ in zip(prev[1].vals, red.vals)]
+                pending[id(k_)] = (k_, merged)
+            else:
+                pending[id(k_)] = (k_, red)
+    return out
+
+
+def run(facts, body, args, budget=60000, prov=False):
     """-> ('panic', node) | ('value', v) | ('unknown', why)"""
+    if prov:
+        _UID[0] = 100
+        it = Interp(facts, max(budget, 400000), None, prov=True)
+        try:
+            return ("value", deref(it.call_fn(body, args)))
+        except Panic as p:
+            return ("panic", p.node)
+        except Abort as a:
+            return ("unknown", str(a))
+        except (_Break, _Continue):
+            return ("unknown", "stray break")
+        except RecursionError:
+            return ("unknown", "recursion")
     memo = _MEMO.setdefault(id(facts), {})
     # operands are numbered 1, 2, 3 ... by the caller; nodes created during this evaluation from 100: the same call on the same shapes
     # names its nodes the same way, so remembered results stay valid across grid points
